@@ -38,11 +38,15 @@ func runC13(c *Ctx) {
 	}
 	fn := c.SSAFunc(lp, s.nextFn)
 	sl := analyseScanLoop(c, "R5.4", fn, lp.TypesInfo.Defs[s.advFn.Name], lp.TypesInfo.Defs[s.evalFn.Name], s.errorState)
+	if sl.pathsDone {
+		checkPendingAtEOF(c, "R13.1", sl, "internal/ebnf/lexer")
+	} else {
+		c.Undecided("R13.1", "scan loop: the paths through one iteration", s.nextFn.Pos(), "the scan loop was not understood")
+	}
 	if !sl.ok {
-		c.Undecided("R13.1", "scan loop", s.nextFn.Pos(), "scan loop not understood")
+		c.Undecided("R13.3", "scan loop: which terminals are skipped", s.nextFn.Pos(), "the treatment of the evaluated token was not understood")
 		return
 	}
-	checkPendingAtEOF(c, "R13.1", sl, "internal/ebnf/lexer")
 
 	// R13.3
 	g := extractEBNF(c, "R13.3")
@@ -116,36 +120,13 @@ func checkPendingAtEOF(c *Ctx, rule string, sl *scanLoop, where string) {
 		"a file whose last byte is the last character of a token (no final newline)") {
 		return
 	}
-	for _, st := range sl.sites {
-		if st.context != "eof" {
-			continue
-		}
-		b := st.call.Block()
-		pending := false
-		for _, cd := range controlConds(b) {
-			if n, eq, ok := eqConst(cd.v, sl.curr); ok && n == 0 && eq != cd.pol {
-				pending = true
-			}
-		}
-		c.Check(rule, where+": evaluation at end of input only when a lexeme is pending (state != 0)", st.call.Pos(), pending,
+	for _, p := range sl.eofPaths {
+		c.Check(rule, where+": evaluation at end of input only when a lexeme is pending (state != 0)", p.endPos, p.pending,
 			"the start state is evaluated at end of input: every input would end with a lexical error instead of end-of-input")
-		// the error must be end-of-input
-		isEOF := false
-		for _, cd := range controlConds(b) {
-			if call, ok := cd.v.(*ssa.Call); ok && cd.pol && staticCalleeName(call) == "errors.Is" {
-				if g, ok := rootGlobal(call.Call.Args[1]); ok && g == "io.EOF" {
-					isEOF = true
-				}
-			}
-			if bo, ok := cd.v.(*ssa.BinOp); ok && bo.Op == token.EQL && cd.pol {
-				if g, ok := rootGlobal(bo.Y); ok && g == "io.EOF" {
-					isEOF = true
-				}
-			}
-		}
-		c.Check(rule, where+": only end-of-input triggers the pending evaluation", st.call.Pos(), isEOF, "a read error other than io.EOF is swallowed by evaluating the pending state")
+		c.Check(rule, where+": only end-of-input triggers the pending evaluation", p.endPos, p.eofTest, "a read error other than io.EOF is swallowed by evaluating the pending state")
 	}
 }
+
 
 var _ = fmt.Sprint
 
